@@ -92,6 +92,12 @@ def tdmd(ctx, shape, variant, ortho_l, ortho_r, perm):
     if not ctx.sym:
         x = TT(mk_cores(ctx, 'x', sx, False))
         y = TT(mk_cores(ctx, 'y', sy, False))
+        # a switched-off flag documents "that side is orthonormal already": hand over an admissible representation of the same tensor
+        if not ortho_l and d >= 3:
+            x = x.ortho_left(end_index=d - 3)
+        if not ortho_r:
+            x = x.ortho_right(end_index=d - 1)
+        Xd = D.tt_full(ctx, [c for c in x.cores]).reshape(-1, m)
         ev, modes = fn(x, y, ortho_l=ortho_l, ortho_r=ortho_r)
         Xn, Yn = np.asarray(Xd), np.asarray(Yd)
         U, s, Vh = np.linalg.svd(Xn, full_matrices=False)
@@ -99,7 +105,7 @@ def tdmd(ctx, shape, variant, ortho_l, ortho_r, perm):
         U, s, Vh = U[:, :k], s[:k], Vh[:k, :]
         At = U.T @ Yn @ Vh.T @ np.diag(1 / s)
         ref = np.sort(np.linalg.eigvals(At))[::-1]
-        if s[-1] / s[0] > 1e-8 and ortho_l and ortho_r:
+        if s[-1] / s[0] > 1e-8:
             ctx.eq('tdmd_%s: eigenvalues == those of matrix DMD of the unfolded snapshots' % variant, np.sort(np.asarray(ev))[::-1], ref, tol=1e-6)
         ok = (modes.order == len(modes.cores) and all(c.ndim == 4 and tuple(c.shape) == (modes.ranks[i], modes.row_dims[i], modes.col_dims[i], modes.ranks[i + 1])
                                                        for i, c in enumerate(modes.cores)))
